@@ -23,6 +23,24 @@ func dumpPath(kind, label string) string {
 	return fmt.Sprintf("%s/c17_%s_%s.txt", dumpDir, kind, label)
 }
 
+// profileBlocks splits a debug=1 goroutine profile into its stack blocks; the header line ("goroutine profile:
+// total N") that precedes the first block is dropped, so that every block starts with its "<count> @ ..." line.
+func profileBlocks(text string) []string {
+	blks := strings.Split(text, "\n\n")
+	for i, blk := range blks {
+		blk = strings.TrimSpace(blk)
+		if strings.HasPrefix(blk, "goroutine profile:") {
+			if j := strings.Index(blk, "\n"); j >= 0 {
+				blk = blk[j+1:]
+			} else {
+				blk = ""
+			}
+		}
+		blks[i] = blk
+	}
+	return blks
+}
+
 // withLabel runs f on a fresh goroutine labelled sc=<label> and waits for it.
 func withLabel(label string, f func()) {
 	done := make(chan struct{})
@@ -43,7 +61,7 @@ func gocqlGoroutines(label string) (int, []string, string) {
 	n := 0
 	seen := map[string]bool{}
 	var raw []string
-	for _, blk := range strings.Split(b.String(), "\n\n") {
+	for _, blk := range profileBlocks(b.String()) {
 		lines := strings.Split(strings.TrimSpace(blk), "\n")
 		if len(lines) < 2 {
 			continue
@@ -115,7 +133,7 @@ func pendingFills(label string) int {
 	pprof.Lookup("goroutine").WriteTo(&b, 1)
 	want := `"sc":"` + label + `"`
 	n := 0
-	for _, blk := range strings.Split(b.String(), "\n\n") {
+	for _, blk := range profileBlocks(b.String()) {
 		lines := strings.Split(strings.TrimSpace(blk), "\n")
 		if len(lines) < 2 {
 			continue
@@ -154,7 +172,7 @@ func hsReporters(label string) int {
 	pprof.Lookup("goroutine").WriteTo(&b, 1)
 	want := `"sc":"` + label + `"`
 	n := 0
-	for _, blk := range strings.Split(b.String(), "\n\n") {
+	for _, blk := range profileBlocks(b.String()) {
 		lines := strings.Split(strings.TrimSpace(blk), "\n")
 		if len(lines) < 2 {
 			continue
